@@ -677,7 +677,7 @@ var tocOps = []tocOp{
 			return false
 		}
 		prev := entStr(m, "name")
-		n := rng.Pick(2, 10, 300, 3000)
+		n := rng.Pick(2, 10, 300, 2000)
 		for i := 0; i < n; i++ {
 			nn := fmt.Sprintf("ch%d", i)
 			e := map[string]any{"name": nn, "type": "hardlink", "linkName": prev}
@@ -808,7 +808,7 @@ var tocOps = []tocOp{
 		if m == nil {
 			return false
 		}
-		n := rng.Pick(100, 2000, 20000)
+		n := rng.Pick(50, 150, 400)
 		m["size"] = num(int64(n))
 		m["chunkSize"] = num(1)
 		off := entInt(m, "offset")
@@ -840,7 +840,7 @@ var tocOps = []tocOp{
 		return true
 	}},
 	{"name-deep", func(rng *prng.R, d *tocDoc) bool {
-		depth := rng.Pick(50, 300, 2500)
+		depth := rng.Pick(50, 300, 1500)
 		n := strings.Repeat("d/", depth) + "leaf"
 		t := rng.PickS("reg", "dir", "symlink", "hardlink")
 		e := map[string]any{"name": n, "type": t}
@@ -975,7 +975,7 @@ var tocOps = []tocOp{
 		return true
 	}},
 	{"huge-dir", func(rng *prng.R, d *tocDoc) bool {
-		n := rng.Pick(1000, 20000)
+		n := rng.Pick(500, 5000)
 		t := rng.PickS("reg", "dir", "symlink", "hardlink")
 		for i := 0; i < n; i++ {
 			d.Entries = append(d.Entries, map[string]any{"name": fmt.Sprintf("huge/e%d", i), "type": t, "linkName": "huge/e0"})
